@@ -504,6 +504,8 @@ def main(run):
         nonlocal skipped_multi
         batch = []
         for family, spec in _families(run, O, tok):
+            if broken:
+                return
             i = register(family, spec)
             a = meta[i]["a"]
             if len(a.risky) > 1:
@@ -526,11 +528,17 @@ def main(run):
 
     # ------------------------------------------------------------------ run the trees
     obs: dict[int, dict] = {}
+    broken: list = []
     evals = 0
     rebinds = None
     retry: list[dict] = []
     for case, ob in pool.run_cases("checks.c19:work", cases(), deadline_s=300, rlimit_as=2 << 30):
         if "items" not in ob:
+            if ob.get("_startup"):
+                if not broken:
+                    run.inconclusive("worker cannot start (the module under test does not import?): " + ob.get("stderr", "").strip().splitlines()[-1][:300] if ob.get("stderr", "").strip() else "worker cannot start")
+                broken.append(1)
+                continue
             if ob.get("_harness_error"):
                 run.inconclusive("worker harness error: " + ob["_harness_error"])
                 print(ob.get("_tb", ""))
@@ -541,6 +549,8 @@ def main(run):
         rebinds = ob["rebinds"] if rebinds is None else min(rebinds, ob["rebinds"])
         for it in ob["items"]:
             obs[it["i"]] = it
+    if broken:
+        return
     if retry:
         run.count("batches_rerun_itemwise", len(retry))
         for case, ob in pool.run_cases("checks.c19:work", retry, deadline_s=120, rlimit_as=2 << 30):
